@@ -49,6 +49,20 @@ chk("C18","E3-hist","model_checking",
   "Explicit-state search by history replay on a fresh real IceConn: all sequences over a 21-letter alphabet (3 sources x 6 packet kinds, reset, signaling retarget, selected-pair update) x 72 configurations, without dedup to depth 4/5 and with canonical-state dedup (mechanically cross-checked) to depth 6/8; oracle = invariants I1-I4 plus a reference model of the documented decision rules.",
   "Trusted: the canonical-state abstraction (cross-checked against the no-dedup pass); documented-rule ambiguities are accepted in every reading.",
   "explicit-state search by history replay on the real object with invariant + reference-model oracle","DESIGN.md 4.18")
+
+dtls_note = "Trusted: tokio's paused clock and current-thread scheduler; select! branch order seeded; zero processing time; cryptographic primitives. rustrtc<->rustrtc endpoints only."
+chk("C11",E2,"model_checking",
+  "Every fault history with at most B deviations {drop, dup, late dup, swap, delay 1 s / 2.5 s, re-fragmentation in order / reversed} over every handshake datagram (all flights and every retransmission) of two real DtlsTransports is executed in virtual time up to the 30 s handshake deadline; plus a fragment-permutation plan (three fragments delivered 1,3,2).",
+  dtls_note + " The fragment-permutation plan waives the identical-replay requirement (garbage parse depends on DTLS randoms the harness does not own).",
+  "deviation-bounded exhaustive exploration of handshake fault histories on the real implementation","DESIGN.md 4.11")
+chk("C02",E2,"model_checking",
+  "Every tamper op of a 26-entry catalogue (certificate / key-exchange / signature / randoms / omission / reordering / replay / extension stripping / full MITM with own or stolen certificate), applied persistently to every matching message, x expected fingerprint {correct, absent, wrong} on each side (thorough: all pairs of ops) is executed on two real DtlsTransports to the handshake deadline.",
+  dtls_note + " The attacker cannot forge signatures; certificates are P-256.",
+  "exhaustive enumeration of on-path tamper histories against the real handshake with an authenticity oracle","DESIGN.md 4.2")
+chk("C03",E2,"model_checking",
+  "Inbound: every record of a catalogue (6 content types x 3 epochs x 4 payloads x 2 sources; every single-bit flip, truncation, re-addressing and epoch rewrite of a genuine record) injected at each of 5 stages into either endpoint (thorough: pairs), compared with the injection-free run. Outbound: every start order of 1-3 concurrent senders x 6 payload sizes, every emitted datagram checked (one record, encrypted, <= path limit, unique nonce, reassembles the payloads).",
+  dtls_note + " Concurrent senders interleave at await-point granularity only.",
+  "exhaustive injection enumeration over protocol stages with a differential (injection-free) oracle","DESIGN.md 4.3")
 todo = {p: "check under construction in this round (DESIGN.md section 8 build order); not yet claimed" for p in props if p not in C}
 m = {"version": 1,
  "setup_cmd": "cd /verif/harness && CARGO_NET_OFFLINE=true cargo build --release --offline --workspace",
@@ -57,7 +71,7 @@ m = {"version": 1,
    "baseline_off_cmd": "/verif/baseline.sh", "source_commits": hooks, "add_only": True},
  "engines": [
   {"name":"E1-loom","path":"harness/h_loom","serves_properties":["C20"],"kind_free_text":"loom DPOR over the repository's spsc.rs/track.rs included textually with shadowed primitives"},
-  {"name":"E2-sim","path":"harness/vh/src/{sim,sctp_sim,sctp_props,wire}.rs","serves_properties":["C01","C12","C13"],"kind_free_text":"deterministic two-endpoint simulator (real IceConn/DTLS/SCTP on an in-memory socket, paused tokio clock, seeded RNG) under a deviation-bounded fault explorer"},
+  {"name":"E2-sim","path":"harness/vh/src/{sim,sctp_sim,sctp_props,dtls_sim,explorer,wire}.rs + bin/{c02,c03,c11}.rs","serves_properties":["C01","C02","C03","C11","C12","C13"],"kind_free_text":"deterministic two-endpoint simulator (real IceConn/DTLS/SCTP on an in-memory socket, paused tokio clock, seeded RNG) under a deviation-bounded fault explorer"},
   {"name":"E3-hist","path":"harness/vh/src/bin/{c05,c18}.rs","serves_properties":["C05","C18"],"kind_free_text":"explicit-state search over operation histories replayed on fresh real objects"},
   {"name":"E4-enum","path":"harness/vh/src/bin/{c04,c15,c16}.rs","serves_properties":["C04","C15","C16"],"kind_free_text":"complete enumeration of bounded input spaces against reference models / independent implementations"}],
  "checks": [C[p] for p in props if p in C],
